@@ -22,11 +22,46 @@
 /* ------------------------------------------------------------------ allocator ledger */
 extern void *__real_malloc(size_t);
 extern void __real_free(void *);
-static int g_track;
 #define LMAX 256
-static void *g_live[LMAX]; static int g_nlive;
-static void *g_freed[LMAX]; static int g_nfreed;
-static int g_double_free, g_foreign_free, g_allocs, g_frees;
+#define CMAX 64
+/* all mutable state of the shim lives OUTSIDE this shared object's writable segment (mmap'ed at load time), so that the explorer can
+ * snapshot / restore / digest that segment and see exactly the LIBRARY's static memory (function-static buffers, file-scope caches) */
+#include <sys/mman.h>
+struct shim_state {
+    int track;
+    void *live[LMAX]; int nlive; void *freed[LMAX]; int nfreed;
+    int double_free, foreign_free, allocs, frees;
+    int inject_code, inject_buf, inject_armed, conversions;
+    int ctx_created, ctx_destroyed, ctx_live, ctx_err_destroy_dead, ctx_err_use_dead, ctx_init_calls, create_fail, initialize_fail;
+    void *ctx[CMAX]; int nctx; void *ctx_dead[CMAX]; int nctx_dead;
+};
+static struct shim_state *S;
+__attribute__((constructor)) static void shim_ctor(void) { S = mmap(NULL, sizeof *S, PROT_READ | PROT_WRITE, MAP_PRIVATE | MAP_ANONYMOUS, -1, 0); memset(S, 0, sizeof *S); }
+#define g_track S->track
+#define g_live S->live
+#define g_nlive S->nlive
+#define g_freed S->freed
+#define g_nfreed S->nfreed
+#define g_double_free S->double_free
+#define g_foreign_free S->foreign_free
+#define g_allocs S->allocs
+#define g_frees S->frees
+#define g_inject_code S->inject_code
+#define g_inject_buf S->inject_buf
+#define g_inject_armed S->inject_armed
+#define g_conversions S->conversions
+#define g_ctx_created S->ctx_created
+#define g_ctx_destroyed S->ctx_destroyed
+#define g_ctx_live S->ctx_live
+#define g_ctx_err_destroy_dead S->ctx_err_destroy_dead
+#define g_ctx_err_use_dead S->ctx_err_use_dead
+#define g_ctx_init_calls S->ctx_init_calls
+#define g_create_fail S->create_fail
+#define g_initialize_fail S->initialize_fail
+#define g_ctx S->ctx
+#define g_nctx S->nctx
+#define g_ctx_dead S->ctx_dead
+#define g_nctx_dead S->nctx_dead
 
 static int find(void **a, int n, void *p) { for (int i = 0; i < n; i++) if (a[i] == p) return i; return -1; }
 void *__wrap_malloc(size_t n) {
@@ -48,6 +83,10 @@ void __wrap_free(void *p) {
     }
     __real_free(p);
 }
+extern char *__real_strndup(const char *, size_t);
+char *__wrap_strndup(const char *p, size_t n) { size_t l = strnlen(p, n); char *r = __wrap_malloc(l + 1); if (r) { memcpy(r, p, l); r[l] = 0; } return r; }
+char *__wrap_strdup(const char *p) { return __wrap_strndup(p, strlen(p)); }
+void *__wrap_calloc(size_t a, size_t b) { void *r = __wrap_malloc(a * b); if (r) memset(r, 0, a * b); return r; }
 void shim_ledger_reset(void) {
     for (int i = 0; i < g_nlive; i++) __real_free(g_live[i]);
     g_nlive = g_nfreed = 0; g_double_free = g_foreign_free = g_allocs = g_frees = 0;
@@ -57,7 +96,6 @@ int shim_ledger_double_free(void) { return g_double_free; }
 int shim_ledger_foreign_free(void) { return g_foreign_free; }
 
 /* ------------------------------------------------------------------ conversion seam + fault injection */
-static int g_inject_code, g_inject_buf, g_inject_armed, g_conversions;
 void shim_inject(int code, int with_buffer) { g_inject_code = code; g_inject_buf = with_buffer; g_inject_armed = 1; }
 void shim_disarm(void) { g_inject_armed = 0; }
 int shim_conversions(void) { return g_conversions; }
@@ -96,11 +134,6 @@ const char *idna_strerror(int rc) { return idn2_strerror(rc); }
 #endif
 
 /* ------------------------------------------------------------------ idnkit resolver ledger */
-static int g_ctx_created, g_ctx_destroyed, g_ctx_live, g_ctx_err_destroy_dead, g_ctx_err_use_dead, g_ctx_init_calls;
-static int g_create_fail, g_initialize_fail;
-#define CMAX 64
-static void *g_ctx[CMAX]; static int g_nctx;           /* live contexts */
-static void *g_ctx_dead[CMAX]; static int g_nctx_dead;
 void shim_ctx_reset(void) { for (int i = 0; i < g_nctx; i++) __real_free(g_ctx[i]); g_nctx = g_nctx_dead = 0;
     g_ctx_created = g_ctx_destroyed = g_ctx_live = g_ctx_err_destroy_dead = g_ctx_err_use_dead = g_ctx_init_calls = 0; g_create_fail = g_initialize_fail = 0; }
 int shim_ctx_live(void) { return g_nctx; }
